@@ -55,6 +55,19 @@ EXPORT void* spqlios_keep_or_free(void* ptr, void* ptr2);
 #define CPU_SUPPORTS(xxxx) 0
 #endif
 
+#ifdef SPQLIOS_VERIF
+// verification hook: lets a harness mask CPU features so that the generic-C dispatch
+// configuration can be exercised on an AVX host. With the guard off nothing changes.
+EXPORT int spqlios_verif_cpu_supports(const char* feature, int detected);
+EXPORT void spqlios_verif_set_cpu_mask(int disable_avx2, int disable_fma, int disable_avx512);
+#undef CPU_SUPPORTS
+#ifdef __x86_64__
+#define CPU_SUPPORTS(xxxx) spqlios_verif_cpu_supports((xxxx), __builtin_cpu_supports(xxxx))
+#else
+#define CPU_SUPPORTS(xxxx) 0
+#endif
+#endif  // SPQLIOS_VERIF
+
 /** @brief returns the n bits of value in reversed order */
 EXPORT uint32_t revbits(uint32_t nbits, uint32_t value);
 
